@@ -14,7 +14,16 @@ mkdir -p "$HERE/.bin" "$HERE/evidence"
 RACE=""; [ -f "$PKG/RACE" ] && RACE="-race"
 cp /repo/go.sum "$HERE/harness/go.sum.repo" 2>/dev/null
 BIN="$HERE/.bin/$id_lc"
-( cd "$HERE/harness" && go build $RACE -tags verif -o "$BIN" "./cmd/$id_lc" ) > "$HERE/.bin/$id_lc.build.log" 2>&1
+MODFILE=""
+if [ -n "${VERIF_REPO:-}" ] && [ "${VERIF_REPO}" != /repo ]; then
+  # monitor self-tests: build against a scratch copy of the repository (never used by registered commands)
+  tagm="$(echo "$VERIF_REPO" | md5sum | cut -c1-8)"
+  BIN="$HERE/.bin/$id_lc.alt-$tagm"
+  sed "s#=> /repo#=> $VERIF_REPO#" "$HERE/harness/go.mod" > "$HERE/.bin/go.alt-$tagm.mod"
+  cp "$HERE/harness/go.sum" "$HERE/.bin/go.alt-$tagm.sum"
+  MODFILE="-modfile=$HERE/.bin/go.alt-$tagm.mod"
+fi
+( cd "$HERE/harness" && go build $MODFILE $RACE -tags verif -o "$BIN" "./cmd/$id_lc" ) > "$HERE/.bin/$id_lc.build.log" 2>&1
 if [ $? -ne 0 ]; then
   echo "BROKEN property=$ID build failed (see $HERE/.bin/$id_lc.build.log)"; tail -20 "$HERE/.bin/$id_lc.build.log"; exit 3
 fi
